@@ -74,6 +74,31 @@ ANCHORED_TABLES = {"_UNRESOLVABLE", "_COLLECTIONS", "_UNWRAPPABLE", "_MAPPING_TY
 NOT_INLINED = {"typelib.graph._level", "typelib.serdes._make_fields_iterator", "typelib.serdes._is_iterable_of_pairs", "typelib.binding._get_binding", "typelib.py.inspection._hints_from_signature", "typelib.py.refs._resolve_module_name", "typelib.serdes._isoformat_duration"}
 
 
+def _int_constant(prog: Program, dotted: str, _depth: int = 0):
+    """The value of a private module-level name of the package that is bound once to an integer literal or to +, -, *, //
+    of such names and literals; None for anything else."""
+    if not dotted.startswith("typelib.") or _depth > 4:
+        return None
+    mn, _, nm = dotted.rpartition(".")
+    mod = prog.modules.get(mn)
+    if mod is None or nm not in mod.assigns or not nm.startswith("_") or nm in mod.functions or nm in mod.classes:
+        return None
+
+    def ev(e):
+        if isinstance(e, ast.Constant) and type(e.value) is int:
+            return e.value
+        if isinstance(e, ast.Name):
+            return _int_constant(prog, prog.resolve_name(mod, e.id), _depth + 1)
+        if isinstance(e, ast.BinOp) and isinstance(e.op, (ast.Add, ast.Sub, ast.Mult, ast.FloorDiv)):
+            a, b = ev(e.left), ev(e.right)
+            if a is None or b is None or (isinstance(e.op, ast.FloorDiv) and b == 0):
+                return None
+            return {ast.Add: a + b, ast.Sub: a - b, ast.Mult: a * b, ast.FloorDiv: a // b if b else None}[type(e.op)]
+        return None
+
+    return ev(mod.assigns[nm])
+
+
 class Evaluator:
     """Evaluates expressions of one function (or of module level) to terms."""
 
@@ -93,7 +118,11 @@ class Evaluator:
             return T.param(n)
         if n in self.outer_env:
             return self.outer_env[n]
-        return T.ref(self.prog.resolve_name(self.mod, n))
+        full = self.prog.resolve_name(self.mod, n)
+        k = _int_constant(self.prog, full)
+        if k is not None:
+            return T.const(k)  # (an integer that has been given a name at module level: `_USEC_PER_DAY = 86_400 * _USEC_PER_SECOND`)
+        return T.ref(full)
 
     # -------------------------------------------------------------- expressions
     def expr(self, e: ast.expr | None, env: dict) -> tuple | None:
@@ -246,6 +275,18 @@ class Evaluator:
             return None
         for st in body[:-1]:
             if not (isinstance(st, ast.Assign) and len(st.targets) == 1 and isinstance(st.targets[0], ast.Name)) and not (isinstance(st, ast.AnnAssign) and isinstance(st.target, ast.Name) and st.value is not None):
+                # ... or a helper whose only other statement is a collector loop (`out = ""` / `for …: out += f"…"` / `return out`):
+                # one path, no test, the loop read as the comprehension it equals
+                if static is None and isinstance(st, ast.For) and _depth[0] <= 2 and not any(x[0] == "star" for x in args) and not kw:
+                    _depth[0] += 1
+                    try:
+                        hps = paths_of(self.prog, fi)
+                    except AnalysisError:
+                        hps = []
+                    finally:
+                        _depth[0] -= 1
+                    if len(hps) == 1 and hps[0].exit[0] == "return" and not list(hps[0].guards()) and not any(e[0] in ("loop", "while") for e in hps[0].events) and len(args) == len(fi.params):
+                        return substitute(hps[0].exit[1], dict(zip(fi.params, args)))
                 return None
         a = fi.node.args
         if a.vararg or a.kwarg or any(x[0] == "star" for x in args) or any(k is None for k, _ in kw):
@@ -538,6 +579,8 @@ class PathEnumerator:
             v = env2.get(name)
             if v in (("list", ()), ("set", ()), ("dict", ())):
                 return v[0]
+            if v == ("const", ""):
+                return "str"  # `out = ""` … `out += f"…"`: the text "".join(…) builds
             if v is not None and T.is_call_to(v, "builtins.list", "builtins.set", "builtins.dict") and not v[2] and not v[3]:
                 return T.refname(v[1]).rsplit(".", 1)[-1]
             return None
@@ -565,6 +608,9 @@ class PathEnumerator:
                         if (kind, meth) not in (("list", "append"), ("set", "add")):
                             return False
                         records.append((tname, kind, conds + extra, (b.value.args[0],), dict(env2)))
+                    continue
+                if isinstance(b, ast.AugAssign) and isinstance(b.op, ast.Add) and isinstance(b.target, ast.Name) and container(b.target.id) == "str" and isinstance(b.value, ast.JoinedStr):
+                    records.append((b.target.id, "str", list(conds), (b.value,), dict(env2)))
                     continue
                 if isinstance(b, ast.Assign) and len(b.targets) == 1 and isinstance(b.targets[0], ast.Subscript) and isinstance(b.targets[0].value, ast.Name) and container(b.targets[0].value.id) == "dict":
                     records.append((b.targets[0].value.id, "dict", list(conds), (b.targets[0].slice, b.value), dict(env2)))
@@ -605,6 +651,8 @@ class PathEnumerator:
             else:
                 elt = ev.expr(payload[0], envr)
             comp = ("comp", kind, elt, ((it, tsrc),), tuple(cterms))
+            if kind == "str":
+                comp = ("call", ("attr", ("const", ""), "join"), (("comp", "gen", elt, ((it, tsrc),), tuple(cterms)),), ())
             st.env[name] = comp
             st.events.append(("assign", name, comp))
         return True
